@@ -129,6 +129,7 @@ package task
 //@ ghost fact deferRan(t *ast.Task, i int)
 // observation variables of runCommand: did the shell command fail, was it an exit status, did the nested call fail
 //@ ghost var shFailed bool scratch
+//@ ghost var shErr error scratch
 //@ ghost var shExit bool scratch
 //@ ghost var nestFailed bool scratch
 //@ ghost fact execOK(h string)
@@ -207,6 +208,9 @@ package task
 //@   site execext.RunCommand#1 requires semLimited() ==> tok == 1                                      [C07]
 //@   site execext.RunCommand#1 requires arg1.Command == t.Cmds[i].Cmd && arg1.Dir == t.Dir             [C02]
 //@   site execext.RunCommand#1 ghost shFailed := result != nil
+//@   init shErr := nil
+//@   site execext.RunCommand#1 ghost shErr := result
+//@   site result.2:(Output).WrapWriter#1 requires arg0 == shErr     -- the closer learns how the command ended         [C17]
 //@   site IsExitStatus#1 ghost shExit := result.1
 //@   ensures result == nil && shFailed ==> shExit && t.Cmds[i].IgnoreError                             [C03]
 //@   ensures nestFailed ==> result != nil                                                              [C03]
